@@ -35,6 +35,9 @@ pub const NEGATIONS: &[&str] = &[
     "a/**/b", "**/a/*/**", "{**/a/**,**/b}", "**/<a/:1,2>*", "**/a*/**", "**/*a/**", "$/**", "**/$",
     "<[0-9]:1,>", "<[a-z]:1,>", "{*.md,<[a-z]:1,>}", "<?:1,>", "<[a-zA-Z]:1,>", "{<[0-9]:1,>,*.rs}", "<a:1,>", "<[!.]:1,>",
     "<[0-9]:2,>", "<[a-z]:1,3>", "{{a/**,**/*.rs},b}", "{x,{**/.git/**,**/*.md}}", "{{a,b}/**,c}", "<{a,b}:1,>",
+    // Exact counts (round 8, C03-I: a rebuilt token tree that loses the upper bound of a converged
+    // repetition); the names in the trees are one to three characters long.
+    "<?:1>/**", "<?:2>/**", "<[a-z]:1>", "**/<?:1>", "<?:1>", "<[!.]:2>/**", "<?:1,1>/**", "<[a-zA-Z]:2>", "**/<[a-z]:1>/**", "<?:2>",
     "(?i)**/*.TXT", "**/(?i)b", "(?i)A/**", "**/(?i)SRC/**", "(?i)**/{A,B}", "**/(?i)LIB.RS", "(?i)**/MAIN.*", "**/(?i)FOO/**", "(?i)**/[AB]",
 ];
 
